@@ -2241,7 +2241,8 @@ GRcreate(int32 grid, const char *name, int32 ncomp, int32 nt, int32 il, int32 di
     HEclear();
 
     /* check the validity of the args */
-    if (HAatom_group(grid) != GRIDGROUP || name == NULL || ncomp < 1 ||
+    /* (the number of components is stored as a 16-bit signed value in the image dimension record) */
+    if (HAatom_group(grid) != GRIDGROUP || name == NULL || ncomp < 1 || ncomp > INT16_MAX ||
         (il != MFGR_INTERLACE_PIXEL && il != MFGR_INTERLACE_LINE && il != MFGR_INTERLACE_COMPONENT) ||
         dimsizes == NULL || dimsizes[0] <= 0 || dimsizes[1] <= 0)
         HGOTO_ERROR(DFE_ARGS, FAIL);
